@@ -7,7 +7,7 @@ LEVEL = "other"
 CLAIM = {
     "text": ("Only the naming and table clauses of C14 are structural and decided: (R1) the file name used is the given name with the engine's extension added when it has none, consistently for saving, loading, merging and deleting "
              "(every file-system call on the dataset file uses the name normalised with the engine of the I/O; save_ds / load_ds normalise before every use); (R2) the extension table, save_ds and load_ds agree on the engines, extensions do not "
-             "shadow one another, auto_add_extension adds exactly the engine's extension iff none is present, and the documented attribute rewriting is exactly None/True/False by identity on netCDF engines only. "
+             "shadow one another, auto_add_extension adds exactly the engine's extension iff none is present, and the documented attribute rewriting is exactly None/True/False by identity on netCDF engines only; (R3) on the netCDF branch, complex data reaches Dataset.to_netcdf with invalid_netcdf=True (the option without which h5netcdf refuses complex dtypes), set unconditionally or on the complex branch of a complex-data test, before the call. "
              "NOT decided -- the bulk of the property: round-trip identity of values, dtypes, NaNs, complex data, lazy vs eager loading are facts about h5netcdf / joblib / dask on runtime data."),
     "note": "Trusted base: none beyond CPython semantics; the claim is limited to the naming / table clauses and says so.",
     "technique": "static analysis: provenance rule on file-name expressions, table agreement, exact-idiom rule for the attribute rewriting tests",
@@ -20,6 +20,7 @@ NOT_DECIDED = ["(L/V) save -> load identity of dimensions, coordinates, values (
 def run(ctx):
     harvest.physical_name_rule(ctx, "C14.R1")
     harvest.engine_tables_rule(ctx, "C14.R2")
+    harvest.complex_netcdf_rule(ctx, "C14.R3")
     prog = ctx.prog
     sl = [prog.need_func(MAN + "." + n) for n in ("auto_add_extension", "save_ds", "load_ds", "save_merge_ds")]
     base_rules.run_link_rules(ctx, "C14", sl)
